@@ -26,13 +26,16 @@ type C09Case struct {
 	Positions []int `json:"positions"`
 	All       bool  `json:"all"`
 	// Second fault (pairs): kind and position draw applied to the first reconcile of the recovery; 0 = none
-	SecondKind int    `json:"second_kind,omitempty"`
-	SecondPos  int    `json:"second_pos,omitempty"`
+	SecondKind int `json:"second_kind,omitempty"`
+	SecondPos  int `json:"second_pos,omitempty"`
+	// SecondSame: the second fault hits the same reconcile as the first, 1 + SecondPos%3 calls later (a retry
+	// inside the controller that fails again)
+	SecondSame bool   `json:"second_same,omitempty"`
 	Perm       uint64 `json:"perm,omitempty"`
 }
 
 func (c C09Case) Summary() interface{} {
-	return map[string]interface{}{"world": summarizeWorld(c.W), "positions": c.Positions, "all_positions": c.All, "second_fault": faultNames[c.SecondKind], "second_pos": c.SecondPos}
+	return map[string]interface{}{"world": summarizeWorld(c.W), "positions": c.Positions, "all_positions": c.All, "second_fault": faultNames[c.SecondKind], "second_pos": c.SecondPos, "second_fault_in_same_reconcile": c.SecondSame}
 }
 
 var c09Kinds = []int{FServerError, FTimeoutLost, FTimeoutApplied, FCrashBefore, FCrashAfter, FConflict, FNotFound, FAlreadyExists}
@@ -59,6 +62,7 @@ func genC09(rt *rapid.T) C09Case {
 	if rapid.IntRange(0, 3).Draw(rt, "pair") == 0 {
 		c.SecondKind = rapid.SampledFrom(c09Kinds).Draw(rt, "secondKind")
 		c.SecondPos = rapid.IntRange(0, 999).Draw(rt, "secondPos")
+		c.SecondSame = rapid.IntRange(0, 2).Draw(rt, "secondSame") == 0
 	}
 	if rapid.Bool().Draw(rt, "permute") {
 		c.Perm = uint64(rapid.IntRange(1, 1<<16).Draw(rt, "perm"))
@@ -251,6 +255,11 @@ func runC09(rep Rep, c C09Case) {
 				defer f.Close()
 				f.OnRecord = func(r *sim.Record, op *Op) { safetyMonitors(rep, r) }
 				op := &Op{K: OpReconcile, Refresh: 1, Perm: c.Perm, FaultAt: k, Fault: kind, Worker: true}
+				bothTransient := transient(kind)
+				if c.SecondKind != 0 && c.SecondSame {
+					op.Fault2, op.Fault2Off = c.SecondKind, 1+c.SecondPos%3
+					bothTransient = bothTransient && transient(c.SecondKind)
+				}
 				// the same faulted reconcile on a second clone, called directly: its return value tells
 				// whether the reconcile failed, independently of what the worker logs
 				var syncErr error
@@ -268,7 +277,10 @@ func runC09(rep Rep, c C09Case) {
 				}
 				target := r0.Actions[k-1]
 				nontrivial := k >= firstWrite && writes >= 2
-				rep.Sub(fmt.Sprintf("%s|%d|%d|%d|%d", wfp, k, kind, c.SecondKind, c.SecondPos), nontrivial)
+				rep.Sub(fmt.Sprintf("%s|%d|%d|%d|%d|%v", wfp, k, kind, c.SecondKind, c.SecondPos, c.SecondSame), nontrivial)
+				if f.Fault2Hit {
+					rep.Label("second-fault-in-same-reconcile-hit")
+				}
 				rep.Label("fault:" + faultNames[kind])
 				rep.Label("target:" + target.Verb + " " + target.Resource)
 				desc := fmt.Sprintf("fault %s at call %d of %d (%s)", faultNames[kind], k, N, target)
@@ -285,7 +297,7 @@ func runC09(rep Rep, c C09Case) {
 					if r.Err == nil && r.Requeues != 0 {
 						rep.Violate("requeue/success-not-forgotten", "%s: the reconcile succeeded but the requeue counter is %d\n%s", desc, r.Requeues, f.Transcript())
 					}
-					if transient(kind) && r.Err == nil {
+					if bothTransient && r.Err == nil {
 						// the failed call was swallowed: then nothing may have been skipped
 						if F := canon(f.C); F != U {
 							rep.Violate("swallowed/"+target.Verb+"-"+target.Resource, "%s: the reconcile reported success although a call failed, and the state differs from the unfaulted run:\n%s\n%s",
@@ -293,7 +305,7 @@ func runC09(rep Rep, c C09Case) {
 						}
 					}
 				}
-				if !r.Crashed && !transient(kind) && syncErr == nil && k-1 < len(r.Actions) {
+				if !r.Crashed && !transient(kind) && syncErr == nil && k-1 < len(r.Actions) && !f.Fault2Hit {
 					// an interference made this call fail for real (the object was gone / already there / modified).
 					// Answering that with success is acceptable only where the design tolerates it: adopting or
 					// releasing a pod that vanished, creating a revision that already exists with the same data,
@@ -308,7 +320,7 @@ func runC09(rep Rep, c C09Case) {
 						}
 					}
 				}
-				if c.SecondKind != 0 {
+				if c.SecondKind != 0 && !c.SecondSame {
 					f.Reconcile(&Op{K: OpReconcile, FaultAt: 1 + c.SecondPos%N, Fault: c.SecondKind})
 					if last := f.Reconciles; last > 0 && f.C.Set(NS, f.Name) != nil {
 						// a crash in the second faulted reconcile restarts the controller as well
